@@ -303,6 +303,18 @@ class err_handler(object):
                 and self.cur_seg_node.id in ('ISA', 'GS', 'ST'):
             # A reader error of an envelope segment itself (ISA, IEA, GS, GE,
             # ST): the envelope nodes hold no segment errors
+            st_node = self.cur_seg_node
+            if st_node.id == 'ST' and not st_node.is_closed():
+                # The ST is the first segment of its set
+                if st_node.children and st_node.children[0].seg_id == 'ST' \
+                        and st_node.children[0].seg_count == 1:
+                    seg_node = st_node.children[0]
+                else:
+                    seg_node = err_seg(st_node, None, st_node.seg_data, 1, st_node.cur_line_st, None)
+                    st_node.children.insert(0, seg_node)
+                seg_node.add_error(err_cde, err_str, err_value)
+                logger.error('Line:%i SEG:%s - %s' % (st_node.cur_line_st, err_cde, err_str))
+                return
             self.isa_error('024', err_str)
             return
         try:
